@@ -9,7 +9,6 @@ Conformance on the real ASan/UBSan daemon (vlib/bytesrun.py), judged by TLC (spe
   (b) byte-level cases: all short byte strings over a 12-symbol alphabet and mutations of valid lines as subject,
       followed by probes (the addressed client, then a fresh well-formed client)."""
 import json
-import os
 import time
 from concurrent.futures import ThreadPoolExecutor
 
@@ -20,7 +19,6 @@ from vlib.core import MachineryError
 
 LEVEL = "model_checking"
 TITLE = "arbitrary input cannot crash or derail the daemon (splitter/tokenizer spec, chunking, junk, peer death)"
-OWN = {"P07_scope", "P09_wire"}
 
 
 # ---- junk lines (unknown ids, unknown commands, malformed replies, blank / over-long / many-argument lines) -----
@@ -42,6 +40,9 @@ def junk_forms(i, tag, rng, huge=False):
         "-1 X a1.svc %sx :OK acct" % tag, "-1 X a1.svc %s_ :OK" % tag, "-1 X a1.svc _ :NO x", "-1 X a1.svc zz :OK",
         "-1 Z", "-1 9", "-1", "-1 ", "-1 ?", "-1 ? bogus",
         "-1 N foo", "-1 H", "-1 U a :b", "-1 T", "%d U name" % i,
+        # ids that do not fit an int are unknown ids too (D19: they used to be truncated and could alias client i)
+        "%d H Others" % (4294967296 + i), "%d D" % (4294967296 + i), "%d N host.example" % (-4294967296 + i),
+        "9223372036854775807 N x", "%d P :+x acc pw" % (8589934592 + i), "99999999999999999999999 D",
     ]
     n = rng.choice([511, 512, 513, 1023, 1024, 1025, 4095, 4096, 4097, 8192, 9000])
     forms.append("%d Z %s" % (u, "y" * (n - len("%d Z " % u))))
@@ -91,13 +92,6 @@ def splice_junk(ctx, events, svcs, density, huge=False):
     while rng.random() < density:
         add_junk()
     return items
-
-
-def stream_len(items, d=None):
-    n = 0
-    for it in items:
-        n += (len(it["raw"]) if it["raw"] is not None else 40) + 2 + len(BR.BARRIER)
-    return n
 
 
 def make_variants(ctx, items, exact_lines, budget):
@@ -421,6 +415,8 @@ def byte_level(ctx, cases, tag, with_class=False):
                       conj, sig, {"kind": "case", "with_class": with_class, "case": {k: c[k] for k in c if k != "cid"}})
     ncases = sum(x["cases"] for x in results)
     steps = sum(x["steps"] for x in results)
+    for c in cases[:2]:
+        ctx.sample({"byte_level_case": subj_short(c), "setup": c["setup"]}, limit=8)
     ctx.cov["evaluations"] += steps
     ctx.cov["traces_validated_against_impl"] += ncases
     bl = ctx.cov.setdefault("byte_level", {"cases": 0, "steps": 0, "processes": 0, "by_context": {}, "predicted_cases": 0})
